@@ -116,6 +116,8 @@ func TestCheck(t *testing.T) {
 	// inbound and end-to-end first: they are the small parts and must not be the ones a budget cut-off loses
 	timed("fixed", func() bool { return outboundFixed(r) })
 	timed("inbound", func() bool { return inbound(t, r, deadline, workers) })
+	// the written text of the window bounds: fractions, zone offsets, spellings, epoch, year 1 and 9999, bounds 1 ns apart
+	timed("bounds", func() bool { return boundSpellings(t, r, deadline, workers, ties) })
 	// number / order / grouping of HMAC routes and of signed targets in one configuration, reloads between configurations
 	timed("multi_inbound", func() bool { return multiInbound(t, r, deadline, workers) })
 	timed("multi_outbound", func() bool { return multiOutbound(t, r, deadline, workers, ties) })
@@ -124,7 +126,7 @@ func TestCheck(t *testing.T) {
 	timed("outbound", func() bool { return outbound(r, deadline, workers, ties) })
 	r.Set("phase_wall_s", phases)
 	// the runner keeps the first six
-	for _, class := range []string{"out:signed-after-tie", "min:boot:401", "min:reloaded:202", "mout:signed", "in:401", "e2e:not-pushed",
+	for _, class := range []string{"out:signed-after-tie", "bnd:signed", "bnd:401", "min:boot:401", "min:reloaded:202", "mout:signed", "in:401", "e2e:not-pushed",
 		"out:not-sent", "in:202", "e2e:pushed", "min:boot:202", "min:reloaded:401", "mout:not-sent"} {
 		if v, ok := samples.val[class]; ok {
 			r.Sample(v)
